@@ -1576,6 +1576,12 @@ class Interp:
             return
         raise Unsupported(f"subscript store on {base!r}")
 
+    def is_complex_term(self, t) -> bool:
+        """Static dtype of a term: complex when it mentions a complex/unit atom or an imaginary coefficient."""
+        if any(self.T.atoms[a].kind in ("unit", "cplx", "complex") for a in t.atoms()):
+            return True
+        return not t.is_real()
+
     def sparse_set(self, m: SparseM, rows, cols, vals):
         rp = rows.parts if isinstance(rows, Concat) else [rows]
         cp = cols.parts if isinstance(cols, Concat) else [cols]
@@ -1591,6 +1597,13 @@ class Interp:
                 raise Unsupported("sparse store: rows/cols are not index arrays")
             v = self.as_term(v)
             key = (r.name, c.name)
+            # static dtype: a matrix assembled from real entries only has a real dtype, and scipy/numpy cast a complex
+            # value stored into it to real (ComplexWarning), dropping the phase
+            if getattr(m, "built_real", None) is None:
+                m.built_real = not any(self.is_complex_term(b.val) for b in m.blocks)
+            if m.built_real and self.is_complex_term(v):
+                m.sets.append(f"!complex-into-real {key}: the matrix was assembled from real entries only (real dtype); "
+                              f"the complex value stored here is cast to real")
             m.sets.append(f"{key} mask={mk[0]}")
             hits = [b for b in m.blocks if (b.row.name, b.col.name) == key]
             exact = [b for b in hits if b.mask == mk[0]]
